@@ -645,10 +645,11 @@ def check_crypto_algs(ctx):
     L = ctx.sval(lfd)
     ps = lfd.call_params()
     rets = [(pc, t) for pc, t, _ in L.returns]
-    ok = len(rets) == 1 and rets[0][1] == ('index', ('param', ps[1]), ('param', ps[0])) and not rets[0][0]
+    ok = len(rets) == 1 and strip_ids(rets[0][1]) == ('index', ('param', ps[1]), ('param', ps[0])) \
+        and common.lookup_side(rets[0][0], ('param', ps[0])) == 'hit'
     bad = [(rpc, rt) for rpc, rt, _ in L.raises]
     ok = ok and len(bad) == 1 and tq.is_call(bad[0][1], 'new configuration.ConfigurationError') and \
-        any(a[0][0] == 'caught' and 'KeyError' in tq.text(a[0]) for a in bad[0][0])
+        common.lookup_side(bad[0][0], ('param', ps[0])) == 'miss'
     ctx.check(ok, 'B2', 'an unknown name is refused with ConfigurationError and a known one returns its table entry',
               key=('B2', '_load_from_dict'), site=ctx.site(lfd, lfd.node))
 
